@@ -6,7 +6,7 @@ import itertools
 
 from .. import automata as A
 from .. import envs, blocks, e1, impl, refmodel
-from ..chartgen import FORMAT_TRAPS, RAW, UNICODE_TRAPS, mk
+from ..chartgen import COMMENT_TRAPS, FORMAT_TRAPS, RAW, UNICODE_TRAPS, mk
 from ..linelang import BL
 
 ID = "C10"
@@ -194,7 +194,7 @@ def _subsets(ctx, part):
                 check_song(ctx, lines[1:], "no Resolution line; fields %r" % chosen)
 
 
-VAL_ALPHA = ("a", '"', " ", "=", "é")
+VAL_ALPHA = ("a", '"', " ", "=", "é", "/")
 
 
 def _values(ctx, f, L):
@@ -283,6 +283,8 @@ def _crowded(ctx, part):
         check_song(ctx, [ln for x in rot for ln in (x, "x = y")], "a foreign line behind every one of the 24 fields")
 
 
+
+
 def _adversarial(ctx):
     for f in STRING_FIELDS:
         others = [g for g in ALL_FIELDS if g != f]
@@ -292,7 +294,7 @@ def _adversarial(ctx):
             check_song(ctx, ["Resolution = 192", '%s = "%s"' % (f, v)], "value of %s is the line of %s" % (f, g))
             if g != "Resolution":
                 check_song(ctx, ['%s = "%s"' % (f, v), "Resolution = 192", canon(g, 5)], "value of %s is the line of %s, followed by the real line" % (f, g))
-        for v in (" lead", "trail ", " both ", '""', '"q"', 'a""b', "x = y", f + " = z", "日本 ♪", "tab\tin", "a\ufeffb", "\ufeff", "\ufeffx\ufeff", "x\u00a0y", "\u200b", "日\u3000本", "e\u0301", "\U0001f3b8") + UNICODE_TRAPS + FORMAT_TRAPS:
+        for v in (" lead", "trail ", " both ", '""', '"q"', 'a""b', "x = y", f + " = z", "日本 ♪", "tab\tin", "a\ufeffb", "\ufeff", "\ufeffx\ufeff", "x\u00a0y", "\u200b", "日\u3000本", "e\u0301", "\U0001f3b8") + COMMENT_TRAPS + UNICODE_TRAPS + FORMAT_TRAPS:
             check_song(ctx, ["Resolution = 192", '%s = "%s"' % (f, v)], "adversarial value %r of %s" % (v, f))
     for f in INT_FIELDS:
         for v in ("0", "00", "7", "007", "99999999", "123456789012345678901234"):
